@@ -53,7 +53,7 @@ CFG['elide_body'] = [r' :: Field for Secp256K1ScalarField :: ', r' :: Group for 
 CFG['contract_dirs'] = CFG['contract_dirs'] + [os.path.join(VERIF, 'contracts_tr')]
 CFG['prelude_files'] = CFG['prelude_files'] + ['prelude/k256_model.rs', 'lemmas/vspec_w.rs', 'lemmas/vspec_tr.rs', 'lemmas/vworld_tr.rs']
 CFG['prelude_modules'] = dict(CFG['prelude_modules'], k256_model=None, vspec_w=None, vspec_tr=None, vworld_tr=None)
-CFG['postlude_files'] = []
+CFG['postlude_files'] = ['lemmas/vprops_tr.rs']
 # frost-secp256k1-tr depends on frost-rerandomized, which enables frost-core's `internals` feature (cargo unifies features): the
 # `#[cfg(feature = "internals")]` constructors (Signature::new, GroupCommitment::from_element, BindingFactorList::new) exist in this build
 CFG['features'] = ['internals']
